@@ -404,6 +404,24 @@ func c17Scale(run *ev.Run) {
 		}
 	}
 	run.Set("scale_histories_pending_acks", ns)
+	// a busy system: k (transient failure, unsolicited event) pairs in front of every acknowledgement - never two
+	// failures in a row, any number in total: tolerated faults and skipped events do not add up to a lost ACK
+	var pairCounts []int
+	for _, k := range []int{1, 5, 9, 10, 11, 12, 25, 100} {
+		for _, alt := range []bool{false, true} {
+			for _, hist := range [][]int{{aRateNoWait, aWaitAcks}, {aPIDNoWait, aWaitAcks, aWaitAcks}, {aRateNoWait, aEnabledNoWait, aWaitAcks, aBacklogWait}, {aBacklogWait}, {aPIDWait}, {aGetStatusSelf}, {aGetRules}} {
+				env := envdfs.New(nil)
+				viol, _, ops, _ := execC17(hist, env, ksim.Shape{EventFaultPairs: k, EventFaultPairsAlt: alt})
+				run.Add("traces_validated_against_impl", 1)
+				run.Add("transitions", ops)
+				for _, v := range viol {
+					run.Report(ev.Violation{Sig: v.Sig, What: fmt.Sprintf("busy system: %d (one transient receive failure, one unsolicited event) pairs in front of every acknowledgement and reply, history %v: ", k, hist) + tailStr(v.What, 1500), Replay: map[string]interface{}{"pairs": k, "alt": alt, "history": hist}})
+				}
+			}
+		}
+		pairCounts = append(pairCounts, k)
+	}
+	run.Set("busy_system_failure_event_pairs", pairCounts)
 }
 
 // c17TwoClients: several AuditClients in ONE process (each on its own simulated kernel): every interleaving of
@@ -654,6 +672,7 @@ func checkC17(tier string, raceBin string) int {
 	}
 	collect(run, "C17", jobs, nil)
 	stackPass(run, "C17")
+	afterlifePass(run, "C17")
 	c17Scale(run)
 	c17TwoClients(run)
 	// concurrent Close: all interleavings
